@@ -12,8 +12,9 @@ Model of `DiffEqSolver` / `QuasiNeutralitySolver`, pygyro/poisson/poisson_solver
   QN: m = 0 selection     :573-600,:623-638  `Electrons`, `qnStiffness0`, `qnModeMatrix`, `qnConfig`
 
 Third-party numerics are parameters with a recorded contract:
-  * `leggauss(n)`: points/weights enter through `Quad` (`w`, and the evaluation points `x c q`; `evalPt` is the
-    affine image the code computes, `startPoints[c] + points[q]*multFactor`);
+  * `leggauss(n)`: points/weights enter through `Quad` (`w`, the per-cell half-widths `mult c` and the evaluation
+    points `x c q`; `evalPt` is the affine image the code computes, `startPoints[c] + points[q]*multFactor[c]`;
+    `evalPtOld` / `Quad.withUniformMult` keep the behaviour before fix F17, one `multFactor` for all cells);
   * coefficient functions (`ddrFactor` … `rhoFactor`; for the QN solver they contain `exp`/`tanh` profiles) enter
     as tables of their values at the evaluation points (`Coefs`);
   * B-spline values `P j c q = B_j(x c q)`, `dP j c q = B_j'(x c q)` (`unitSplineVal` ties them to the model of the
@@ -74,18 +75,29 @@ def refuses (c : BCConfig) (rFactorNull : Bool) : Bool := (poorlyDefined c).leng
 
 variable {K : Type*} [Field K]
 
-/-- Gauss–Legendre data on the cells: `weights`, `multFactor`, `evalPts[c][q]` -/
+/-- Gauss–Legendre data on the cells: `weights`, `multFactor[c]` (half-width of cell `c`; `weights2d[c][q] =
+    weights[q]*multFactor[c]`), `evalPts[c][q]` -/
 structure Quad (K : Type*) where
   ncells : ℕ
   nq : ℕ
   w : ℕ → K
-  mult : K
+  mult : ℕ → K
   x : ℕ → ℕ → K
 
-/-- `startPoints[c] + points[q]*multFactor` with `multFactor = (breaks[1]-breaks[0])*0.5`,
-    `startPoints = (breaks[1:]+breaks[:-1])*0.5` (:173-176) -/
+/-- `startPoints[c] + points[q]*multFactor[c]` with `multFactor = (breaks[1:]-breaks[:-1])*0.5`,
+    `startPoints = (breaks[1:]+breaks[:-1])*0.5` (after fix F17) -/
 def evalPt (breaks pts : ℕ → K) (c q : ℕ) : K :=
+  (breaks (c + 1) + breaks c) * (1 / 2) + pts q * ((breaks (c + 1) - breaks c) * (1 / 2))
+
+/-- **behaviour before fix F17**: `startPoints[c] + points[q]*multFactor` with the single
+    `multFactor = (breaks[1]-breaks[0])*0.5` of the first cell used for every cell -/
+def evalPtOld (breaks pts : ℕ → K) (c q : ℕ) : K :=
   (breaks (c + 1) + breaks c) * (1 / 2) + pts q * ((breaks 1 - breaks 0) * (1 / 2))
+
+/-- **behaviour before fix F17**: the rule with the half-width of the first cell for every cell and the old
+    evaluation points -/
+def Quad.withUniformMult (Q : Quad K) (breaks pts : ℕ → K) : Quad K :=
+  { Q with mult := fun _ => (breaks 1 - breaks 0) * (1 / 2), x := evalPtOld breaks pts }
 
 /-- values of the five coefficient functions at the evaluation points -/
 structure Coefs (K : Type*) where
@@ -103,10 +115,10 @@ def funcIsNull [DecidableEq K] (f : ℕ → ℕ → K) (ncells nq : ℕ) : Bool 
 def overlap (d ncells i s : ℕ) : ℕ × ℕ :=
   (max (max 0 (i - d)) (max 0 (s - d)), min (min ncells (i + 1)) (min ncells (s + 1)))
 
-/-- `np.sum(np.tile(self._weights, end-start) * multFactor * g(evalPts[start:end].flatten()))` -/
+/-- `np.sum(weights2d[start:end].flatten() * g(evalPts[start:end].flatten()))`, `weights2d[c][q] = weights[q]*multFactor[c]` -/
 def quadSum (Q : Quad K) (se : ℕ × ℕ) (g : ℕ → ℕ → K) : K :=
   ((List.range' se.1 (se.2 - se.1)).flatMap
-    (fun c => (List.range Q.nq).map (fun q => Q.w q * Q.mult * g c q))).sum
+    (fun c => (List.range Q.nq).map (fun q => Q.w q * Q.mult c * g c q))).sum
 
 section terms
 variable (d : ℕ) (Q : Quad K) (co : Coefs K) (P dP : ℕ → ℕ → ℕ → K)
